@@ -142,6 +142,23 @@ theorem C14_code_ack_after_sync {ε β : Type} (enc : ε → List β) (len8 : Na
   generalize entries.any mf = a at h
   cases nilFD <;> cases sf <;> cases a <;> cases wf <;> cases syf <;> simp_all
 
+/-- the code of `WAL.Read` against the code of `WAL.Write` (both translated from /repo on every run): whatever batches were
+    written (`WalTie.batchBytes`: the bytes of the write events of `C04_code_one_write`, one after the other), and whatever proper
+    prefix `cut` of one more record a crash left behind them, `Read` returns exactly the entries of the complete records, in
+    order, and no error — a torn tail loses only what was never acknowledged and never makes Open fail.  `CodecOK` asks of the
+    codec only what C11 proves of it: the length prefix has eight bytes and decodes to itself, `TUnmarshal` inverts `TMarshal` -/
+theorem C14_code_read_back {ε β : Type} {enc : ε → List β} {len8 : Nat → List β} {dec8 : List β → Int} {unm : List β → Option ε}
+    (hc : WalTie.CodecOK enc len8 dec8 unm) (dflt : ε) (es : List ε) (hs : ∀ e ∈ es, (enc e).length < 2 ^ 63) (cut : List β)
+    (ht : WalTie.Torn enc len8 cut) :
+    GenWal.read dec8 unm dflt false false false false (WalTie.batchBytes enc len8 es ++ cut) = some es :=
+  WalTie.read_back hc dflt es hs cut ht
+
+/-- non-vacuity: a toy codec meets `CodecOK`, and a file of two records and three bytes of a third reads back as the two -/
+example : WalTie.CodecOK (fun (e : Nat) => [e, e]) (fun n => [n, 0, 0, 0, 0, 0, 0, 0]) (fun l => (l.headD 0 : Nat))
+    (fun l => l.head?) := ⟨fun _ => rfl, fun _ _ _ => rfl, fun _ => rfl⟩
+example : GenWal.read (fun l => ((l.headD 0 : Nat) : Int)) (fun (l : List Nat) => l.head?) 0 false false false false
+    ([2, 0, 0, 0, 0, 0, 0, 0, 5, 5, 2, 0, 0, 0, 0, 0, 0, 0, 7, 7] ++ [2, 0, 0]) = some [5, 7] := by decide
+
 #print axioms C14_lossy_crash
 #print axioms C14_ack_after_sync
 #print axioms C14_program_lossy
@@ -151,4 +168,5 @@ theorem C14_code_ack_after_sync {ε β : Type} (enc : ε → List β) (len8 : Na
 #print axioms C14_torn_wal_is_prefix
 #print axioms C14_code_publish_by_rename
 #print axioms C14_code_ack_after_sync
+#print axioms C14_code_read_back
 end Props
